@@ -233,14 +233,15 @@ def _run(env):
                 ctx.fail('subpackets-history', 'SubPackets.parse and the model disagree on accepting the areas', dict(case, impl=repr(o)[:200], model=mo[:100]))
             continue
         sp, r2 = o[1]
-        got = ' '.join([hx(sp._hashed_raw) if sp._hashed_raw is not None else '-', hx(sp._unhashed_raw) if sp._unhashed_raw is not None else '-',
+        hraw_, uraw_ = getattr(sp, '_hashed_raw', None), getattr(sp, '_unhashed_raw', None)
+        got = ' '.join([hx(hraw_) if hraw_ is not None else '-', hx(uraw_) if uraw_ is not None else '-',
                         str(len(sp._hashed_sp)), str(len(sp._unhashed_sp)), hx(r2)])
         if not ctx.expect_eq('subpackets-history', 'SubPackets state after the history (received areas kept / dropped, subpacket counts, rest) differs from the model', case, got, mo):
             continue
         he, ue = bytes(sp.__hashbytearray__()), bytes(sp.__unhashbytearray__())
-        if sp._hashed_raw is not None and he != ha:
+        if hraw_ is not None and he != ha:
             ctx.fail('subpackets-history', 'hashed area emitted after a history without hashed additions is not the received one', dict(case, impl=he.hex()[:200]))
-        if sp._unhashed_raw is not None and ue != ua:
+        if uraw_ is not None and ue != ua:
             ctx.fail('subpackets-history', 'unhashed area emitted after a history without unhashed additions is not the received one', dict(case, impl=ue.hex()[:200]))
         if bytes(sp.__bytearray__()) != he + ue:
             ctx.fail('subpackets-history', 'SubPackets.__bytearray__ is not hashed area followed by unhashed area', case)
